@@ -27,6 +27,7 @@ def scenarios(tier):
     out.append(dict(name="roms-N5-P2-R1-EF", fn="run", params=dict(N=5, P=2, R=1, adv="EF", roms=True), cost=60))
     if not q:
         out.append(dict(name="roms-N6-P1-R2-RK4", fn="run", params=dict(N=6, P=1, R=2, adv="RK4", roms=True), cost=90))
+    out.append(dict(name="leaves-grid-N6-P1-R1-EF", fn="run", params=dict(N=6, P=1, R=1, adv="EF", fast=True), cost=30))
     for (N, P, R) in combos:
         for adv in (("EF",) if (N, P, R) != (6, 2, 1) else ("EF", "RK2", "RK4")):
             out.append(dict(name=f"N{N}-P{P}-R{R}-{adv}", fn="run", params=dict(N=N, P=P, R=R, adv=adv), cost=N * 3))
@@ -69,7 +70,7 @@ def run(W, p):
         x0 = W.frac(11, 4)  # start position inside the 6x6 ROMS grid; depth symbolic below
     else:
         x0 = W.real("x0", 6, 14)
-    u = W.real("u", -W.frac(1, 100), W.frac(1, 100))
+    u = W.real("u", -W.frac(1, 100), W.frac(1, 100)) if not p.get("fast") else W.frac(1, 2)  # fast: 3 cells per step, particles leave the 20-cell basin and die
     temp = W.real("temp")
     w0 = W.real("w0")
     kstep = W.idx(W.int("killstep", 0, N - 1) if not p.get("roms") else W.int("killstep", 1, 2))
